@@ -449,9 +449,11 @@ pub fn run(pid: &str, seed: u64, n: usize, out: &Path, _thorough: bool) -> anyho
                 let mut c1 = Client { handle: client.handle.clone(), txs: Vec::new(), rxs: Vec::new(), author_ids: client.author_ids.clone() };
                 let mut c2 = Client { handle: client.handle.clone(), txs: Vec::new(), rxs: Vec::new(), author_ids: client.author_ids.clone() };
                 let (ops1, ops2) = (conc_ops.0.clone(), conc_ops.1.clone());
-                let t1 = tokio::spawn(async move { let mut r = Vec::new(); for op in &ops1 { r.push(c1.apply(op, unknown).await); tokio::task::yield_now().await; } r });
-                let t2 = tokio::spawn(async move { let mut r = Vec::new(); for op in &ops2 { r.push(c2.apply(op, unknown).await); tokio::task::yield_now().await; } r });
-                let (r1, r2) = (t1.await?, t2.await?);
+                // both futures are polled by this task (the interning table of the case writer is
+                // per thread); the requests still interleave in the actor's inbox
+                let f1 = async { let mut r = Vec::new(); for op in &ops1 { r.push(c1.apply(op, unknown).await); tokio::task::yield_now().await; } r };
+                let f2 = async { let mut r = Vec::new(); for op in &ops2 { r.push(c2.apply(op, unknown).await); tokio::task::yield_now().await; } r };
+                let (r1, r2) = tokio::join!(f1, f2);
                 for (ops, rs) in [(&conc_ops.0, r1), (&conc_ops.1, r2)] {
                     let mut items = Vec::new();
                     let mut jitems = Vec::new();
